@@ -3,6 +3,27 @@ package main
 func buildProperties() []Property {
 	return []Property{
 		{
+			ID: "C12", Title: "The Solutions iterator never blocks, counts answers exactly and stops on Close",
+			Decides:    "typestate of the iterator: no send on the request channel after Close, Close closes it at most once and reports the repeat, no blocking send once the answer channel was found closed (Next after exhaustion returns false instead of blocking), every blocking receive of the search goroutine is released by Close and the answer channel is closed by a deferred close.",
+			NotDecided: "exactly-once delivery of answers, interleaving of two iterations, promptness, goroutine counts - histories and schedules.",
+			Rules: []RuleDef{
+				{"R-CLOSE-ONCE", 2, only("R-CLOSE-ONCE", ruleSolutionsTypestate)},
+				{"R-NO-SEND-AFTER-CLOSE", 1, only("R-NO-SEND-AFTER-CLOSE", ruleSolutionsTypestate)},
+				{"R-NO-SEND-WHEN-EXHAUSTED", 1, only("R-NO-SEND-WHEN-EXHAUSTED", ruleSolutionsTypestate)},
+				{"R-GOROUTINE-RELEASE", 3, only("R-GOROUTINE-RELEASE", ruleSolutionsTypestate)},
+			},
+		},
+		{
+			ID: "C15", Title: "Go values cross the API as data: placeholders = literals, Scan exact or error",
+			Decides:    "every narrowing conversion of an answer value in Scan is guarded by an exactness/range test with an error edge (sizes from the analysed build, thorough tier repeats with 32-bit int); placeholder arguments never flow into a reader, lexer or parser constructor (they enter the grammar only as finished terms); a term is returned only when the argument queue is empty and the queue is indexed only when non-empty.",
+			NotDecided: "that termOf(v) equals the literal denoting v under every double_quotes setting.",
+			Rules: []RuleDef{
+				{"R-NARROWING", 6, ruleNarrowing},
+				{"R-PLACEHOLDER-TAINT", 2, rulePlaceholderTaint},
+				{"R-ARGS-CONSUMED", 2, ruleArgsConsumed},
+			},
+		},
+		{
 			ID: "C09", Title: "Database updates follow the logical update view; retract removes its match",
 			Decides:    "no delayed continuation addresses the live clause list by a position computed at call time (the mechanism behind the wrong deletions and the slice-bounds panic); calls iterate clause copies captured eagerly; the live database is written only from code statically reachable from asserta/assertz/retract/abolish/consult, the loader and the registration API.",
 			NotDecided: "that the final database equals the sequential reference model for every history; front/end insertion order.",
@@ -147,4 +168,23 @@ func threadRowsFor(fns ...string) []threadRow {
 		}
 	}
 	return out
+}
+
+// only runs a multi-rule analysis and keeps the obligations of one rule id.
+func only(id string, f func(c *Ctx, r *Report)) func(c *Ctx, r *Report) {
+	return func(c *Ctx, r *Report) {
+		tmp := newReport(r.Prop)
+		f(c, tmp)
+		for _, o := range tmp.Obs {
+			if o.Rule == id {
+				r.Obs = append(r.Obs, o)
+			}
+		}
+		for k, v := range tmp.Analysed {
+			if k == id {
+				r.Analysed[k] = append(r.Analysed[k], v...)
+			}
+		}
+		r.Notes = append(r.Notes, tmp.Notes...)
+	}
 }
